@@ -62,6 +62,8 @@ pub enum Ty {
     Arr(Box<Ty>),
     /// one-element array
     Arr1(Box<Ty>),
+    /// `Option<Gc<'gc, Self>>` (always `None` in the generated values)
+    GcSelf,
     BoxT(Box<Ty>),
     LockOptGc,
     RefLockVec(Box<Ty>),
@@ -108,7 +110,7 @@ impl Ty {
     }
     fn mentions_gc(&self) -> bool {
         match self {
-            Ty::Gc | Ty::Weak | Ty::LockOptGc => true,
+            Ty::Gc | Ty::Weak | Ty::LockOptGc | Ty::GcSelf => true,
             Ty::Opt(t) | Ty::Vec(t) | Ty::Arr(t) | Ty::Arr1(t) | Ty::BoxT(t) | Ty::RefLockVec(t) => t.mentions_gc(),
             Ty::Tup(a, b) => a.mentions_gc() || b.mentions_gc(),
             Ty::Nested(_) => true,
@@ -118,6 +120,7 @@ impl Ty {
     fn render(&self, lt: &str) -> String {
         match self {
             Ty::Gc => format!("Gc<{lt}, u32>"),
+            Ty::GcSelf => format!("Option<Gc<{lt}, Self>>"),
             Ty::Weak => format!("GcWeak<{lt}, u32>"),
             Ty::U32 => "u32".into(),
             Ty::Str => "String".into(),
@@ -139,6 +142,7 @@ impl Ty {
     fn value(&self, inst: &[Inst], traced: bool) -> String {
         match self {
             Ty::Gc => "e.s(mc)".into(),
+            Ty::GcSelf => "None".into(),
             Ty::Weak => "e.w(mc)".into(),
             Ty::U32 => "5u32".into(),
             Ty::Str => "String::from(\"x\")".into(),
@@ -158,7 +162,7 @@ impl Ty {
     }
     fn needs_trace(&self, inst: &[Inst], nested_nt: &[bool]) -> bool {
         match self {
-            Ty::Gc | Ty::Weak | Ty::Loud | Ty::LockOptGc => true,
+            Ty::Gc | Ty::Weak | Ty::Loud | Ty::LockOptGc | Ty::GcSelf => true,
             Ty::U32 | Ty::Str | Ty::NoImpl => false,
             Ty::Opt(t) | Ty::Vec(t) | Ty::Arr(t) | Ty::Arr1(t) | Ty::BoxT(t) | Ty::RefLockVec(t) => t.needs_trace(inst, nested_nt),
             Ty::Tup(a, b) => a.needs_trace(inst, nested_nt) || b.needs_trace(inst, nested_nt),
@@ -457,7 +461,7 @@ fn static_ty() -> BoxedStrategy<Ty> {
 }
 
 fn any_ty(n_params: usize, n_nested: usize) -> BoxedStrategy<Ty> {
-    let mut leaves: Vec<(u32, BoxedStrategy<Ty>)> = vec![(5, Just(Ty::Gc).boxed()), (4, Just(Ty::Weak).boxed()), (2, Just(Ty::U32).boxed()), (1, Just(Ty::Str).boxed()), (2, Just(Ty::Loud).boxed()), (2, Just(Ty::LockOptGc).boxed())];
+    let mut leaves: Vec<(u32, BoxedStrategy<Ty>)> = vec![(5, Just(Ty::Gc).boxed()), (4, Just(Ty::Weak).boxed()), (2, Just(Ty::U32).boxed()), (1, Just(Ty::Str).boxed()), (2, Just(Ty::Loud).boxed()), (2, Just(Ty::LockOptGc).boxed()), (2, Just(Ty::GcSelf).boxed())];
     if n_params > 0 {
         leaves.push((5, (0..n_params).prop_map(Ty::Param).boxed()));
     }
